@@ -25,6 +25,7 @@ pub fn cfg() -> GenCfg {
         max_comp_depth: 3,
         fk_to_null: true,
         hyphen_vars: true,
+        hyphen_keys: true,
         ..GenCfg::default()
     }
 }
